@@ -29,7 +29,12 @@ def snapRefs (s : Snapshot) : List (ObjId × Nat) :=
   (s.table.flatMap (fun e => e.children.map (fun r => (r.obj, r.vid)))) ++
   (s.watches.filterMap (fun w => w.vid.map (fun v => (w.obj, v))))
 
-/-- `process_variable` keeps every root alive in the cache provider: ids cannot be reused while the cache is in use -/
+/-- tripwire: `process_variable` keeps every ROOT value alive in the cache provider (`hold`), so the `id()` of a recorded
+    root cannot be reused while the cache is in use.  Assumption kept next to it: ONLY roots are held.  Objects reachable
+    from a root stay alive through it; objects a traversal creates on the fly — the items of a `__dict__` property, what a
+    user `__iter__` / `.args` property hands out, the pairs of a dict view — are NOT held: their ids may be recycled
+    within the snapshot (the model gives such temporaries distinct `ObjId`s; the generators keep them out of the kinds the
+    collector iterates — see the `views` stream of the check). -/
 theorem c07_ids_stable : holdsRoots = true := by decide
 
 /-- **injective** — the identity cache of a finished action never gives two objects one id nor one object two ids,
